@@ -1,6 +1,7 @@
 import NbioVerif.DrvCommon
 import NbioVerif.Model.HttpMsg
 import NbioVerif.Model.ScanChecked
+import NbioVerif.Model.HttpEngine
 /-! httpdrv: line-protocol driver of the HTTP parser family (C06, C07, C08); see harness/cmd/hhttp/main.go. -/
 open Http Scan Drv
 
@@ -72,6 +73,7 @@ structure DS where
   stream : List UInt8 := []
   bounds : List Nat := []
   neighbour : Bool := false
+  emode : Nat := 0             -- hhttpe: I/O mode of the engine cell
 
 /-! ### C07: decoding of `M` lines (see harness/cmd/hhttp7/msg.go) -/
 
@@ -144,6 +146,48 @@ def runProc (s : DS) (evs : List Ev) : Option Building × String :=
   match procRun s.g.isClient s.cur evs [] with
   | some (cur, out) => (cur, String.intercalate ";" (out.map showDelivered))
   | none => (none, "proc-nil-deref")
+
+/-- the writes of an hhttpe case: the stream cut as the client cuts it -/
+def writesOf : Nat → List UInt8 → List Nat → List (List UInt8)
+  | 0, _, _ => []
+  | fuel + 1, rest, cuts =>
+    if rest = [] then [] else
+    let n := match cuts with | c :: _ => if c > 0 && c < rest.length then c else rest.length | [] => rest.length
+    rest.take n :: writesOf fuel (rest.drop n) cuts.tail
+
+/-- request targets as the hhttpe handler files them: "/<id>/<name>[?…]" ↦ name -/
+def pathName (id : String) (target : List UInt8) : Option String :=
+  let t := String.ofList (target.map fun b => Char.ofNat b.toNat)
+  let t := (t.splitOn "?").headD ""
+  match ((t.drop 1).toString.splitOn "/") with
+  | i :: rest => if i == id && rest ≠ [] then some (String.intercalate "/" rest) else none
+  | _ => none
+
+/-- one engine scenario on the model: the client's writes arrive as reads (by C06 the cut positions do not matter),
+    then the client closes; returns the line the harness prints for the real engine -/
+def engineCase (g : Cfg) (mode : Nat) (id : String) (stream : List UInt8) (cuts : List Nat) : String :=
+  let ws := writesOf (stream.length + 1) stream cuts
+  let c0 : HttpEngine.Conn P Ev := HttpEngine.fresh (Http.init g)
+  let M := machine g
+  -- while the client is still connected
+  let c1 : HttpEngine.Conn P Ev :=
+    match mode with
+    | 0 => HttpEngine.runNB M 0 c0 (ws.map .data)
+    | 1 | 2 => HttpEngine.runB M 0 c0 (ws.map .data)
+    | 3 => HttpEngine.runTlsNB M 0 c0 (ws.map fun w => (.data w, [⟨w, false⟩, ⟨[], false⟩]))
+    | _ => HttpEngine.runTlsB M 0 c0 (ws.map fun w => (.data w, [⟨w, false⟩, ⟨[], false⟩]))
+  let closedFirst := c1.trace.any (· == HttpEngine.Obs.connClose)
+  -- then the client closes: the next read fails
+  let c2 : HttpEngine.Conn P Ev :=
+    match mode with
+    | 0 => HttpEngine.runNB M 0 c1 [.err]
+    | 1 | 2 => HttpEngine.runB M 0 c1 [.err]
+    | 3 => HttpEngine.runTlsNB M 0 c1 [(.err, [])]
+    | _ => HttpEngine.runTlsB M 0 c1 [(.err, [])]
+  let evs := c2.trace.filterMap fun | .ev e => some e | _ => none
+  let names := (requestsOf evs).filterMap fun r => pathName id r.target
+  let onclose := (c2.trace.filter (· == HttpEngine.Obs.onClose)).length
+  s!"R handled={String.intercalate "," names} closed={if closedFirst then 1 else 0} onclose={onclose}"
 
 def hexList (s : String) : List (List UInt8) := (s.splitOn ",").filter (· ≠ "") |>.map unhex
 
@@ -220,10 +264,18 @@ partial def loop (h : IO.FS.Stream) (s : DS) : IO Unit := do
       let ok := flat r.evs == specEvs && deliveredOf g.isClient specEvs == specDel
       IO.println s!"R err={err} cache={if err == 0 then toString cache else "?"} st={if err == 0 then toString st else "?"} nb={msgs} offs={offs} ref={ref}{if ok then "" else " spec-mismatch"}"
     loop h s
-  -- hhttpe (engine-level "nothing after an error"): an implementation-only stream; the model-level statement is
-  -- theorem c08_silent_after_close, the driver only keeps the line protocol in step (fields compared: none)
-  | ["C", mode] => IO.println (if mode == "0" || mode == "1" || mode == "2" then "ok" else "bad-op"); loop h s
-  | ["S", _, _, _] => IO.println "R"; loop h s
+  -- hhttpe: the engine model (Model/HttpEngine.lean) over the parser model, on the writes of the case
+  | ["C", mode] =>
+    if mode.toNat! ≤ 5 && mode.isNat then IO.println "ok"; loop h { s with emode := mode.toNat! }
+    else IO.println "bad-op"; loop h s
+  | "S" :: id :: hx :: cuts :: rest =>
+    let stream := unhex hx
+    let badUrls := hexList ((field rest "badurl").getD "")
+    let badProtos := hexList ((field rest "badproto").getD "")
+    let g : Cfg := { isClient := false, maxBody := 0, urlOk := fun u => !badUrls.contains u, protoOk := fun u => !badProtos.contains u }
+    let cutl := if cuts == "whole" then [] else (cuts.splitOn ",").map String.toNat!
+    IO.println (engineCase g s.emode id stream cutl)
+    loop h s
   | _ => IO.println "bad-op"; loop h s
 
 def main : IO Unit := do
